@@ -64,3 +64,7 @@ Proof.
     apply Qle_bool_iff in L. rewrite L in H. discriminate.
   - apply negb_true_iff. destruct (Qle_bool c (best / (Zpos nd # 1))) eqn:L; [|reflexivity]. apply Qle_bool_iff in L. lra.
 Qed.
+
+(* a source without any stored fit has no best chi^2 (NaN here): it is in the bad file whatever the criterion (repair F60) *)
+Theorem C18_no_fit_lemma chi cpd nd id : good_m chi cpd {| fr_id := id; fr_best := NaN; fr_nd := nd |} = false.
+Proof. unfold good_m. simpl. destruct (thr_on chi), (thr_on cpd); reflexivity. Qed.
